@@ -20,7 +20,7 @@ CHECKS = {
         "model_checking",
         "Every operator impl the API defines (about 120 Add/Sub/Mul/Neg impls over f64, &DecisionVariable, &Parameter, Linear, Quadratic, Polynomial, Function, "
         "incl. the macro-generated mixed and reversed ones, plus Sum/Product) is executed on every ordered pair of operand values from closed pools containing every "
-        "representation quirk (unsorted/repeated terms, lower/upper triangle, explicit zeros, absent linear part, every oneof variant) from a pool with id extremes (0, 2^32+3 next to 3, u64::MAX) and from a pool of long operands (33 / 65 terms); the result message is read back "
+        "representation quirk (unsorted/repeated terms, lower/upper triangle, explicit zeros, absent linear part, every oneof variant) from a pool with id extremes (0, 2^32+3 next to 3, u64::MAX) from a pool of long operands (33 / 65 terms) and, for sums and differences, from a pool with 2^-45 coefficients; the result message is read back "
         "through its public fields and must equal exact-rational polynomial arithmetic coefficient by coefficient; term iterators of operands and results must yield sorted ids summing to the polynomial.",
         "Trusted: num::BigRational and the harness readers. Quick tier traverses oversized pair grids with a fixed stride (recorded in evidence, exhaustive=false then); thorough covers the full grids. Unset-oneof Function operands are outside the alphabet (documented panic).",
         "bounded exhaustive enumeration of operator impl x operand pairs on the real code vs exact polynomial arithmetic",
@@ -35,22 +35,22 @@ CHECKS = {
     ),
     "C04": (
         "model_checking",
-        "(1) Function::substitute on a function family x all 8^4 replacement maps over four keys (constant, linear, linear mentioning another replaced id, quadratic, zero, identity, an unnormalised linear listing an id twice, absent) vs exact simultaneous composition; long functions (31..100 terms) under four replacement maps. "
+        "(1) Function::substitute on a function family x all 8^4 replacement maps over four keys (constant, linear, linear mentioning another replaced id, quadratic, zero, identity, an unnormalised linear listing an id twice, absent) vs exact simultaneous composition; long functions (31..100 terms) under four replacement maps; small functions and maps with ids 0 / 2^32+3 / u64::MAX. "
         "(2) Instance::substitute on an instance family (variable lists in and out of id order; replaced variables unbounded, or bounded so that the replacement values fall outside) x first map x optional second map (chains) x states, under every iteration order of the dependency map (hook H1): every function compared as polynomial, dependency map compared, Solution compared with the original instance evaluated at the completed state, evaluate_samples over two states compared with evaluate; log_encode->substitute->evaluate on all bit patterns. "
-        "(3) Explicit enumeration of ALL dependency graphs on n<=3 (quick) / n<=4 (thorough, 16.7M graphs) dependents, each summing any subset of {dependents incl. itself, a valued variable, a value-less variable}, x all n! iteration orders, through the real Instance::evaluate; oracle = Kahn topological evaluation: exact values when acyclic and grounded, Err otherwise; a watchdog turns a hang into a violation.",
+        "(3) Explicit enumeration of ALL dependency graphs on n<=3 (quick) / n<=4 (thorough, 16.7M graphs) dependents, each summing any subset of {dependents incl. itself, a valued variable, a value-less variable}, x all n! iteration orders, through the real Instance::evaluate (and once per graph Instance::evaluate_samples); oracle = Kahn topological evaluation: exact values when acyclic and grounded, Err otherwise; a watchdog turns a hang into a violation.",
         "Trusted: Poly.subst, Kahn oracle, hook H1 (sorts the bucket by key and applies the harness permutation; identity when unset). Instance-level replacements mention only remaining variables, as the property states.",
         "exhaustive enumeration of dependency graphs x iteration orders (schedules) and of replacement maps on the real code vs reference composition",
     ),
     "C05": (
         "model_checking",
         "Two product families of instances run through the real Instance::evaluate on every state of a per-instance alphabet and compared with an independent reference evaluator: (a) all (active, removed) constraint lists up to 2+2 whose values land on every side of the 1e-6 tolerance (-1,-2e-6,-5e-7,0,5e-7,1e-6,2e-6,1; both equalities; absent/unset functions; removal reasons incl. the empty string) x objectives x variable configurations; "
-        "(b) all 15 kind x bound shapes for a used and for an irrelevant variable x pre-fixed variable x dependency none/single/chain/quadratic, states on the grid, at bound edges +-5e-8 (accepted) and +-2e-7 (rejected), each variable missing, an extra undefined id, a stale value supplied for a dependent variable; dependent values outside the dependent variable's declared bound. Oracle: objective, each constraint exactly once with value/equality/metadata/removal reason, both flags by the tolerance rule, reported state = given + fixed + dependent + nearest-to-zero fill, Err exactly for out-of-bound or missing used variables. Every dependency-map order is enumerated.",
+        "(b) all 17 kind x bound shapes (incl. binary [1,1] and [0,0]) for a used and for an irrelevant variable x pre-fixed variable x dependency none/single/chain/quadratic, states on the grid, at bound edges +-5e-8 (accepted) and +-2e-7 (rejected), each variable missing, an extra undefined id, a stale value supplied for a dependent variable; dependent values outside the dependent variable's declared bound. Oracle: objective, each constraint exactly once with value/equality/metadata/removal reason, both flags by the tolerance rule, reported state = given + fixed + dependent + nearest-to-zero fill, Err exactly for out-of-bound or missing used variables. Every dependency-map order is enumerated.",
         "Flags are asserted against the rule applied to the SDK-reported values, which are themselves compared with exact values. Values exactly at bound+-1e-7 are outside the alphabet (skipped_too_close_to_threshold must be 0).",
         "bounded exhaustive enumeration of (instance, state) on the real code vs reference evaluator",
     ),
     "C06": (
         "model_checking",
-        "Every Samples message with k sample ids (every ordered set partition of the ids into entries x every assignment of one of 4 pool states to each entry; the pool contains a state omitting the irrelevant variable, two different states with equal objective and constraint values, and a duplicate; k<=3 quick / k<=4 thorough in full (thorough also k=5 in full on every 8th instance), k=5,6 over a 2-state pool, k=7,8 structured; plus every add_sample insertion order for k=3) over an instance family (irrelevant-variable bound shapes, pre-fixed variable whose value one pool state contradicts and which is followed by unused variables, a pool value 5e-8 beyond a bound (inside evaluate's tolerance), dependency none/single/chain, active+removed constraints (removal reasons incl. the empty string), constraint values exactly on the +-1e-6 tolerance, objectives in quirky representations: split constants, explicit zeros, degree-0 polynomials), through the real evaluate_samples and SampleSet::get; each extracted Solution compared field by field (and as a whole message) with Instance::evaluate of that sample's state; objective/feasibility/constraint tables must be keyed by exactly the submitted ids; samples whose state omits a variable the problem uses (alone, or beside a complete sample in either order) must make evaluate_samples fail exactly when Instance::evaluate fails on them.",
+        "Every Samples message with k sample ids (every ordered set partition of the ids into entries x every assignment of one of 4 pool states to each entry; the pool contains a state omitting the irrelevant variable, two different states with equal objective and constraint values, and a duplicate; k<=3 quick / k<=4 thorough in full (thorough also k=5 in full on every 8th instance), k=5,6 over a 2-state pool, k=7,8 structured; plus every add_sample insertion order for k=3) over an instance family (irrelevant-variable bound shapes, pre-fixed variable whose value one pool state contradicts and which is followed by unused variables, a pool value 5e-8 beyond a bound (inside evaluate's tolerance), dependency none/single/chain, active+removed constraints (removal reasons incl. the empty string; a polynomial constraint with a monomial whose first factor is 0 in one pool state), constraint values exactly on the +-1e-6 tolerance, objectives in quirky representations: split constants, explicit zeros, degree-0 polynomials), through the real evaluate_samples and SampleSet::get; each extracted Solution compared field by field (and as a whole message) with Instance::evaluate of that sample's state; objective/feasibility/constraint tables must be keyed by exactly the submitted ids; samples whose state omits a variable the problem uses (alone, or beside a complete sample in either order) must make evaluate_samples fail exactly when Instance::evaluate fails on them.",
         "Differential oracle: Instance::evaluate, itself verified against the reference evaluator by C05. All pool states are in-bound; a state that evaluate rejects lacks a used variable.",
         "bounded exhaustive enumeration of Samples messages (all groupings) on the real code, differential vs the single-state path",
     ),
@@ -62,7 +62,7 @@ CHECKS = {
     ),
     "C10": (
         "model_checking",
-        "Parametric instances whose objective and constraints range over the full representation alphabet (decision ids {1,2}, parameter ids {10,11}; declared sets {10,11} and {10,11,12} so a declared parameter may be unused or occur only in a removed constraint; parameter 11 carries no name or other metadata, parameter 10 all of it) x parameter assignments {complete, complete+unrelated extra, with a zero value, each single declared parameter missing, empty, unrelated id only} through with_parameters. Oracle: exact partial evaluation of objective and active constraints; decision variables, sense, removed constraints, hints, dependencies unchanged; supplied values recorded; Err iff a declared parameter is missing; evaluate(x) == parametric functions at (x,p). Instance->ParametricInstance->with_parameters({}) round trip compared as problems (also for instances that record the parameters of an earlier instantiation).",
+        "Parametric instances whose objective and constraints range over the full representation alphabet (decision ids {1,2}, parameter ids {10,11}; declared sets {10,11} and {10,11,12} so a declared parameter may be unused or occur only in a removed constraint; parameter 11 carries no name or other metadata, parameter 10 all of it; hints are one-hot only or SOS1 only) x parameter assignments {complete, complete+unrelated extra, with a zero value, each single declared parameter missing (alone and with an unrelated extra id), empty, unrelated id only} through with_parameters. Oracle: exact partial evaluation of objective and active constraints; decision variables, sense, removed constraints, hints, dependencies unchanged; supplied values recorded; Err iff a declared parameter is missing; evaluate(x) == parametric functions at (x,p). Instance->ParametricInstance->with_parameters({}) round trip compared as problems (also for instances that record the parameters of an earlier instantiation).",
         "Trusted: Poly.partial. Previous `parameters` of an Instance are dropped by the conversion by documented design and are not compared.",
         "bounded exhaustive enumeration of (parametric instance, assignment) on the real code vs exact partial evaluation",
     ),
@@ -74,19 +74,19 @@ CHECKS = {
     ),
     "C12": (
         "model_checking",
-        "log_encode on every integer range: every width 0..=4096 x 8 lower ends (-2^20 .. 2^20-w) x fractional offsets {0,.25,.5,.75,1-5e-7} on both ends, the value set over ALL 2^n bit patterns computed as the subset-sum set of the returned integer coefficients and required to be exactly ceil(l)..floor(u) (for widths <= 64 additionally the SDK's own evaluate on every pattern); every width 1..2^21 at three lower ends through the complete-sequence criterion (necessary and sufficient for positive integers; cross-validated against brute force on all widths <= 4096). Registration of the new binaries (fresh ids under two list layouts that make last-element and list-length id schemes collide, kind binary, bound [0,1], tagged with the encoded id), single-integer range => constant; a second call on the same variable (same or changed bound) must again use fresh ids and cover the new range; widths 0..=129 and every error condition are repeated after a real partial_evaluate fixed the encoded variable (either end / middle of the range) or another variable. Every error condition: unknown id (also on an instance without variables), each non-integer kind, absent bound, no integer in bound, NaN bounds, and the infinite bounds in an rlimit'd (1 GiB) subprocess with a 10 s watchdog, where abort/kill/timeout is the violating outcome; failed calls must leave the instance unchanged.",
+        "log_encode on every integer range: every width 0..=4096 x 8 lower ends (-2^20 .. 2^20-w) x fractional offsets {0,.25,.5,.75,1-5e-7} on both ends, the value set over ALL 2^n bit patterns computed as the subset-sum set of the returned integer coefficients and required to be exactly ceil(l)..floor(u) (for widths <= 64 additionally the SDK's own evaluate on every pattern); every width 1..2^21 at three lower ends through the complete-sequence criterion (necessary and sufficient for positive integers; cross-validated against brute force on all widths <= 4096). Registration of the new binaries (fresh ids under two list layouts that make last-element and list-length id schemes collide, kind binary, bound [0,1], tagged with the encoded id), single-integer range => constant; a second call on the same variable (same or changed bound) must again use fresh ids and cover the new range; widths 0..=129 and every error condition are repeated after a real partial_evaluate fixed the encoded variable (either end / middle of the range) or another variable. Every error condition: unknown id (also on an instance without variables), each non-integer kind (with bounds holding several integers or exactly one), absent bound, no integer in bound, NaN bounds, and the infinite bounds in an rlimit'd (1 GiB) subprocess with a 10 s watchdog, where abort/kill/timeout is the violating outcome; failed calls must leave the instance unchanged.",
         "Trusted: subset-sum DP over exact integer coefficients equals enumeration of bit patterns. Subprocess isolation via fork/exec of the harness binary with RLIMIT_AS.",
         "exhaustive enumeration of integer ranges x all bit patterns on the real code; fault enumeration of error conditions incl. subprocess-isolated non-termination",
     ),
     "C13": (
         "model_checking",
-        "Every inequality f(x)<=0 with f = up to 2 (quick) / 3 (thorough) distinct monomials of degree<=2 + constant, coefficients {+-1,+-2,3,+-1/2,1/3,-2/3,3/4}, constants {-3,-1,-1/2,0,1/2,2}, over 1..3 integer/binary variables, every assignment of 5 boxes to the variables, Linear/Quadratic/Polynomial and unnormalised representations (a term listed twice in both id orders; the constant split over two degree-0 monomials), other constraints present in two list layouts (one in descending id order), a second conversion in the same instance on a sub-grid, two variable-list layouts; convert_inequality_to_equality_with_integer_slack x max_integer_range {1,3,100} and add_integer_slack_to_inequality x slack_upper_bound {1,2,5}. Oracle: brute force over EVERY lattice point of the box and EVERY slack value in the new variable's bounds: feasible set in x unchanged; slack integer, fresh id, bound [0,S], same constraint id, b reported = slack coefficient; moved-to-removed => constraint unchanged and satisfied everywhere; InfeasibleDetected => no clearly feasible lattice point; for linear f the determined outcomes are asserted in the converse direction too; rejections (unknown constraint id, a variable of f left undefined, equality field = 0 / unspecified / outside the enumeration, continuous and semi-continuous variable with both methods, range above limit) leave the instance unchanged.",
+        "Every inequality f(x)<=0 with f = up to 2 (quick) / 3 (thorough) distinct monomials of degree<=2 + constant, coefficients {+-1,+-2,3,+-1/2,1/3,-2/3,3/4}, constants {-3,-1,-1/2,0,1/2,2}, over 1..3 integer/binary variables, every assignment of 5 boxes to the variables, Linear/Quadratic/Polynomial and unnormalised representations (a term listed twice in both id orders; the constant split over two degree-0 monomials), other constraints present in two list layouts (one in descending id order), a second conversion in the same instance on a sub-grid, two variable-list layouts; convert_inequality_to_equality_with_integer_slack x max_integer_range {1,3,100} and add_integer_slack_to_inequality x slack_upper_bound {1,2,5}. Oracle: brute force over EVERY lattice point of the box and EVERY slack value in the new variable's bounds: feasible set in x unchanged; slack integer, fresh id, bound [0,S], same constraint id, b reported = slack coefficient; moved-to-removed => constraint unchanged and satisfied everywhere; a linear inequality that holds on the whole box must be moved, not rejected, whatever the range limit; InfeasibleDetected => no clearly feasible lattice point; for linear f the determined outcomes are asserted in the converse direction too; rejections (unknown constraint id, a variable of f left undefined, equality field = 0 / unspecified / outside the enumeration, continuous and semi-continuous variable with both methods, range above limit) leave the instance unchanged.",
         "Feasibility at lattice points uses the 1e-6 rule on values that are multiples of 1/12 (far from the tolerance). add_integer_slack's exact-zero threshold with non-dyadic coefficients is not asserted at the boundary, nor is b == slack coefficient when b is rounding noise (<= 1e-12) of a non-dyadic unnormalised message (both counted as boundary_cases_not_asserted). slack_upper_bound=0 and unbounded variables are outside the alphabet.",
         "bounded exhaustive enumeration of inequalities x boxes with brute-force lattice/slack oracle on the real code",
     ),
     "C14": (
         "model_checking",
-        "Explicit-state breadth-first search with stateright over the real Instance: from each of 14 initial instances (3 constraint-function sets with 3-4 constraints, 0/1/2/all initially removed, two more in which a variable that a constraint mentions carries a fixed value; thorough adds a 5-constraint set: 2.0e5 states, 5.9e6 transitions) every action relax(id, reason in {a, empty string}, params in {none,{k:v}}) / relax(id, a reason with leading and trailing whitespace) / restore(id) for every constraint id and the unknown id 99. The instance message is the whole state (dedup key = message bytes + reference model), so every history of any length is covered, not only length <= 8. Every transition is compared with a two-set reference model (op on an id not in the expected list must fail and leave the instance equal to its clone); every reachable state is checked: multiset of (id, function, equality, metadata) over active+removed unchanged, ids partitioned, recorded reasons/parameters, and on all 27 grid states per-constraint values and feasible equal the initial instance's while feasible_relaxed follows the currently active constraints; three incomplete states (each variable omitted) are accepted or rejected exactly as by the initial instance; evaluate_samples over all grid states reports the same two flags per sample.",
+        "Explicit-state breadth-first search with stateright over the real Instance: from each of 14 initial instances (3 constraint-function sets with 3-4 constraints, 0/1/2/all initially removed, two more in which a variable that a constraint mentions carries a fixed value; thorough adds a 5-constraint set: 2.0e5 states, 5.9e6 transitions) every action relax(id, reason in {a, empty string}, params in {none,{k:v}}) / relax(id, a reason with leading and trailing whitespace) / restore(id) for every constraint id and the unknown id 99. The instance message is the whole state (dedup key = message bytes + reference model), so every history of any length is covered, not only length <= 8. Every transition is compared with a two-set reference model (op on an id not in the expected list must fail and leave the instance equal to its clone); every reachable state is checked: multiset of (id, function, equality, metadata) over active+removed unchanged, ids partitioned, recorded reasons/parameters, and on all 27 grid states per-constraint values and feasible equal the initial instance's while feasible_relaxed follows the currently active constraints; three incomplete states (each variable omitted) are accepted or rejected exactly as by the initial instance; evaluate_samples over all grid states reports the same two flags per sample and rejects the incomplete states evaluate rejects.",
         "stateright 0.31 BFS; violations are collected through a side channel so exploration continues and every signature is reported; replay re-executes the recorded history without the explorer.",
         "explicit-state model checking (stateright BFS) of the real code with a reference model in lock-step",
     ),
@@ -116,19 +116,19 @@ CHECKS = {
     ),
     "C18": (
         "model_checking",
-        "Every linear instance of the product: 1..2 (quick) / 1..3 (thorough) used variables with ids {4,9,1} in rotated list order plus an unused variable with the largest id, each over 30 kind x bound specs (incl. endpoints exactly 0, degenerate and huge finite bounds, fractional bounds on integer variables) (continuous/integer x {absent,[0,1],[-3,5],[2,inf),(-inf,4],(-inf,inf),[-5,-1],[0,0],[0,inf),[-3,0],(-inf,0],[1,1]}, binary x {absent,[0,1],[0,0],[1,1]}) x objective forms x constraint lists (0..2, = / <=, constant-only included, ids {40,3}) with function variants rotating over every message type able to hold a linear function incl. unnormalised ones (a term listed twice, unsorted) and a 2^-60 coefficient, names on some variables / constraints, both senses; written with mps::write_file and read back with mps::load_file in a private scratch directory (file called *.mps.gz or *.mps). Oracle: same sense, objective and every constraint equal as polynomials under the same variable and constraint ids with the same equality, same effective value domain (integrality + bounds, unset = unbounded, binary = integer in [0,1]) for every mathematically used variable. Nonlinear objective / constraint (4 shapes, each position) must be refused with the error variant naming the offender.",
+        "Every linear instance of the product: 1..2 (quick) / 1..3 (thorough) used variables with ids {4,9,1} in rotated list order plus an unused variable with the largest id, each over 30 kind x bound specs (incl. endpoints exactly 0, degenerate and huge finite bounds, fractional bounds on integer variables) (continuous/integer x {absent,[0,1],[-3,5],[2,inf),(-inf,4],(-inf,inf),[-5,-1],[0,0],[0,inf),[-3,0],(-inf,0],[1,1]}, binary x {absent,[0,1],[0,0],[1,1]}) x objective forms x constraint lists (0..2, = / <=, constant-only included, ids {40,3}) with function variants rotating over every message type able to hold a linear function incl. unnormalised ones (a term listed twice, unsorted) and a 2^-60 coefficient, names on some variables / constraints, both senses; written with mps::write_file and read back with mps::load_file in a private scratch directory (file called *.mps.gz or *.mps). Oracle: same sense, objective and every constraint equal as polynomials under the same variable and constraint ids with the same equality, same effective value domain (integrality + bounds, unset = unbounded, binary = integer in [0,1]) for every mathematically used variable. One 150-variable x 80-constraint instance (several hundred KB of text). Nonlinear objective / constraint (4 shapes, each position) must be refused with the error variant naming the offender.",
         "Unnormalised (repeated-id) linear terms are outside the alphabet; variables not mathematically used are not compared (the property restricts to used variables).",
         "bounded exhaustive enumeration of linear instances through the real writer+reader round trip",
     ),
     "C19": (
         "model_checking",
-        "Abstract QP models for EACH of the 120 problem-type codes (objective L/D/C/Q x variables C/B/M/I/G x constraints N/B/L/D/C/Q) x sizes up to n=5, m=4 (incl. m=0 under every constraint kind) x a deterministic sweep (210 quick / 840 thorough per code and size) that visits every value of every content dimension: Q0 diagonal / off-diagonal patterns, default b0 with non-defaults incl. an explicit zero, q0, per-constraint Qi / bi (constraints without linear entries: none / the last / the first / all), constraint sides finite / exactly at the infinity value / beyond it / equal, variable bounds likewise, variable types, names, infinity value 1e20 or 50, sense; 5 layouts (comment lines with ! # %, also indented, blank lines, trailing text after values, lower-case keywords, sparse sections in ascending or descending index order). Rendered by the harness's own QPLIB writer, loaded with qplib::load_file or qplib::load_file_bytes + decode. Expected problem from the model: objective 1/2 x'Q0x + b0'x + q0 assembled from the lower triangle (diagonal entry v -> v/2 x_i^2), one <=0 constraint per finite side with the right signs, unique constraint ids, variable kinds/bounds/names. Fault files on 6 representative codes x 2 layouts: each type-code character invalid, too short, invalid sense, every count non-numeric / negative / fractional, every number and entry value / index unparsable, and truncation after EVERY line => Err whose message carries the line number of the fault.",
+        "Abstract QP models for EACH of the 120 problem-type codes (objective L/D/C/Q x variables C/B/M/I/G x constraints N/B/L/D/C/Q) x sizes up to n=5, m=4 (incl. m=0 under every constraint kind) x a deterministic sweep (210 quick / 840 thorough per code and size) that visits every value of every content dimension: Q0 diagonal / off-diagonal patterns, default b0 with non-defaults incl. an explicit zero, q0, per-constraint Qi / bi (constraints without linear entries: none / the last / the first / all), constraint sides finite / exactly at the infinity value / beyond it / equal, variable bounds likewise, variable types, names, infinity value 1e20 or 50, sense; 5 layouts (comment lines with ! # %, also indented, trailing text also after names, blank lines, trailing text after values, lower-case keywords, sparse sections in ascending or descending index order). Rendered by the harness's own QPLIB writer, loaded with qplib::load_file or qplib::load_file_bytes + decode. Expected problem from the model: objective 1/2 x'Q0x + b0'x + q0 assembled from the lower triangle (diagonal entry v -> v/2 x_i^2), one <=0 constraint per finite side with the right signs, unique constraint ids, variable kinds/bounds/names. Fault files on 6 representative codes x 2 layouts: each type-code character invalid, too short, invalid sense, every count non-numeric / negative / fractional, every number and entry value / index unparsable, and truncation after EVERY line => Err whose message carries the line number of the fault.",
         "Format assumption: the two trailing name sections are always written. Outside the alphabet: out-of-range indices, upper-triangle or repeated entries.",
         "bounded exhaustive enumeration of type codes x content sweep rendered by an independent writer; fault enumeration incl. every truncation point",
     ),
     "C20": (
         "model_checking",
-        "Explicit exploration of add-operation histories: every sequence of length 0..3 (quick) / 0..4 (thorough, 70k archives) over the 16-action alphabet (4 layer kinds x {empty message whose bytes coincide across kinds so digests collide, non-trivial message with unsorted variable / constraint / parameter lists and repeated terms} x {no annotations, all annotations}) and longer histories (to 5 / 6) over a sub-alphabet; each history is replayed from scratch through the real Builder::new_archive_unnamed..build() into a local OCI archive in a private scratch directory, reopened with Artifact::from_oci_archive and compared with a Vec<(media type, bytes, annotations)> reference: manifest order / media types / sha256 digests (computed with sha2) / annotations; get_layer by digest; typed getter of the stored kind returns an equal message and annotations, the other three fail; unknown digest fails; per-kind descriptor sub-sequences; positional listings get_instances / get_solutions. Annotation accessors: every single field, every pair of fields and all fields at once for the four annotation types (title, 1 and 3-4 authors incl. an empty first name and names and titles with leading / trailing blanks, created with sub-second precision and non-UTC offsets, licence, dataset, counts, user keys, start/end, instance and solver digests, parameters) after the archive round trip. An image with a foreign artifact type, or a plain image manifest without artifactType, must not yield a manifest; archives written without the SDK's builder (ocipkg + the published media types and annotation keys, which are literals in the harness) must be readable; the stored hex under another digest algorithm is an unknown digest.",
+        "Explicit exploration of add-operation histories: every sequence of length 0..3 (quick) / 0..4 (thorough, 70k archives) over the 16-action alphabet (4 layer kinds x {empty message whose bytes coincide across kinds so digests collide, non-trivial message with unsorted variable / constraint / parameter lists and repeated terms} x {no annotations, all annotations}) and longer histories (to 5 / 6) over a sub-alphabet; each history is replayed from scratch through the real Builder::new_archive_unnamed..build() into a local OCI archive in a private scratch directory, reopened with Artifact::from_oci_archive and compared with a Vec<(media type, bytes, annotations)> reference: manifest order / media types / sha256 digests (computed with sha2) / annotations; get_layer by digest; typed getter of the stored kind returns an equal message and annotations, the other three fail; unknown digest fails; per-kind descriptor sub-sequences; positional listings get_instances / get_solutions. Annotation accessors: every single field, every pair of fields and all fields at once for the four annotation types (title, 1 and 3-4 authors incl. an empty first name and names and titles with leading / trailing blanks, created with sub-second precision and non-UTC offsets, licence, dataset, counts, user keys (set twice; with an empty value), start/end, instance and solver digests, parameters) after the archive round trip. An image with a foreign artifact type, or a plain image manifest without artifactType, must not yield a manifest; archives written without the SDK's builder (ocipkg + the published media types and annotation keys, which are literals in the harness) must be readable; the stored hex under another digest algorithm is an unknown digest.",
         "With equal digests a digest-only lookup cannot distinguish layers: typed getters are asserted against the first layer with that digest (see evidence assumptions); positional listings are asserted strictly. No registry access (local archives only).",
         "explicit-state exploration of operation histories on the real builder/reader vs a Vec reference model",
     ),
